@@ -566,16 +566,35 @@ def oracle(case, res):
     bad += oracle_equation(case, res, case["eq"], res["eq"], "equation")
     if case.get("second") and res.get("second"):
         bad += oracle_equation(case, res, case["second"], res["second"]["eq"], "second equation")
+    bad += oracle_unchanged(case, res)
     return bad
 
 
-def hazard_seen(case, res):
-    """C12's finding, observed but not reported here: eq1.bc read after building a second equation
-    from the same condition objects"""
+def oracle_unchanged(case, res):
+    """A constructor call changes no existing object (the conditions kept by an equation are new
+    objects since /repo c2083c1): the conditions the user gave keep their position attribute, and the
+    first equation's bc re-read after a second equation was built from the same objects is what it was."""
+    bad = []
+    given = [c.get("pos") for c in case["conds"]]
+    def changed(after):
+        return [k for k, (g, a, r) in enumerate(zip(given, after, res["conds"]))
+                if "ok" in r.get("cls", {}) and a != g]
     sec = res.get("second")
-    if not sec or "ok" not in res["eq"] or sec.get("eq1_after") is None or res["eq"]["ok"]["bc"] is None:
-        return False
-    return [t["pos"] for t in res["eq"]["ok"]["bc"]] != [t["pos"] for t in sec["eq1_after"]]
+    if sec and "ok" in res["eq"] and res["eq"]["ok"]["bc"] is not None and sec.get("eq1_after") is not None:
+        key = lambda t: (t["bnd"], t["order"], t["var"], t["pos"], t["ic"], t["nc"], t["lhs_str"], t["rhs"])
+        b0, b1 = res["eq"]["ok"]["bc"], sec["eq1_after"]
+        for j, (x, y) in enumerate(zip(b0, b1)):
+            if key(x) != key(y):
+                bad.append(("shared-condition", "condition %d of the first equation had position %r; after a second equation "
+                            "was built from the same condition objects it reads %r" % (j, x["pos"], y["pos"]), "shared-condition"))
+                break
+    if "skip" not in res["eq"]:
+        ch = changed(res["inputs_after"])
+        if ch:
+            k = ch[0]
+            bad.append(("given-condition-modified", "equation: the given condition %d had position %r, after the constructor "
+                        "call it has %r" % (k, given[k], res["inputs_after"][k]), "given-condition-modified"))
+    return bad
 
 
 # ------------------------------------------------------------------ shrinking
@@ -758,7 +777,7 @@ def main(run, replay=None):
         b = oracle(case, res)
         if b:
             prop_fail[ci] = b
-        if hazard_seen(case, res):
+        if case.get("second") and res.get("second") and (res["second"] or {}).get("eq1_after") is not None:
             hazards += 1
 
     def fails_factory(kind):
@@ -771,7 +790,7 @@ def main(run, replay=None):
 
     reported = set()
     for ci in sorted(prop_fail):
-        kind, msg, detail = prop_fail[ci][0]
+      for kind, msg, detail in prop_fail[ci]:
         sig = {"kind": kind, "pred": detail if kind in ("non-trial-accepted", "bad-argument-accepted", "bad-lhs-accepted") else kind}
         if kind == "bad-lhs-accepted":
             sig["pred"] = detail[4:] if detail.startswith("bad:") else detail
@@ -782,10 +801,10 @@ def main(run, replay=None):
         small = shrink(cases[ci], fails_factory(kind)) if not replay else cases[ci]
         r, _ = run.impl("C18_impl", {"cases": [small]})
         obs = (r or {}).get("results", [None])[0]
-        req = [m for _, m, _ in oracle(small, obs)] if obs and usable(obs) else [msg]
+        req = [m for k, m, _ in oracle(small, obs) if k == kind] if obs and usable(obs) else [msg]
         run.report(sig, "C18 fails on the implementation: " + (req[0] if req else msg), small,
                    observed={"eq": (obs or {}).get("eq"), "conds": [c.get("cls") for c in (obs or {}).get("conds", [])],
-                             "second": (obs or {}).get("second")},
+                             "inputs_after": (obs or {}).get("inputs_after"), "second": (obs or {}).get("second")},
                    required=req or msg, python=python_replay(small), theorem_or_case="oracle:%s" % kind)
     for ci, lab in disagree:
         if ci in prop_fail:
@@ -857,7 +876,7 @@ def main(run, replay=None):
         "property_oracle_failures": sum(len(v) for v in prop_fail.values()),
         "property_oracle_failure_kinds": okinds,
         "conditions_in_eq_bc_checked": nconds_out,
-        "shared_condition_position_overwritten_seen": hazards,
+        "two_equations_from_the_same_conditions_checked": hazards,
         "unsupported_cases": unsupported,
         "input_kinds": hist_kind, "lhs_shapes": hist_shape, "faces_per_condition": hist_faces,
         "unknowns_per_system": hist_unk, "dimension": hist_dim, "equation_verdicts": hist_verdict,
@@ -879,7 +898,8 @@ def main(run, replay=None):
         "Dot orders its two operands by str, modelled for the operands EssentialBC builds (function, Grad(function), normal vector).",
         "Within one left-hand side two == functions are the same object (atoms() is a set).",
         "Union(faces) is modelled by Core/Canon (property C14): stable sort by str of the de-duplicated faces.",
-        "Re-use of one EssentialBC object by two equations is modelled (store semantics) and compared, but its effect on the "
-        "first equation is property C12's finding, not reported here.",
+        "Objects are modelled by a store (index = identity); the constructor only appends new objects (since /repo c2083c1). "
+        "That the given conditions and an earlier equation's bc are unchanged by a later call is a theorem of the model and is "
+        "checked on the real code by the oracle (kinds given-condition-modified / shared-condition).",
     ]
     return run.finish(cov, assumptions)
